@@ -43,6 +43,7 @@ table("(b) seeded changes from sub-agents, wave 1", [r for r in rows if "-w2" no
 table("(c) seeded changes from sub-agents, wave 2", [r for r in rows if "-w2" in r[0]])
 table("(d) seeded changes from sub-agents, wave 3 (organised by source file; each agent saw all 19 property texts)", [r for r in rows if r[0].startswith("W3")])
 print(open(os.path.join(ROOT, "calibration", "strengthened.md")).read())
+print(open(os.path.join(ROOT, "calibration", "refactorings.md")).read())
 print("""Detection power is statistical outside the enumerated sub-spaces: a change that needs, say, a dimension of exactly 17 *and*
 rank 5 will not be hit by the quick tier; the evidence histograms (cells, ranks, depths, path counts, pass kinds) make
 such holes visible, and the thorough tier widens sizes by 10-100x.""")
